@@ -559,7 +559,7 @@ class C20(World):
     )
     COMPONENTS = {
         "real": ["trimesh.load / load_mesh / load_scene / load_path", "every trimesh loader for STL/PLY/OBJ/OFF/GLB/glTF/3MF/DAE/XYZ/binvox/DXF/SVG/dict", "util.decompress", "resolvers", "json, zipfile, tarfile, lxml, pycollada, PIL, svg.path"],
-        "simulated": ["storage bytes and side files", "file objects (SimFile with EIO/EOF/close faults)", "resolver", "builtins.open / io.open (tracked)", "clock of zipfile/tarfile", "uuid4", "np.random / random", "time = Python line events (sys.monitoring)", "memory = tracemalloc"],
+        "simulated": ["storage bytes and side files", "file objects (SimFile with EIO/EOF/close faults)", "resolver", "builtins.open / io.open (tracked)", "clock of zipfile/tarfile", "uuid4", "np.random / random", "time = Python line events (sys.monitoring); NOT simulated: the process CPU clock read by the native-loop backstop (ITIMER_VIRTUAL) and by the ten fixed CPU-time experiments (time.process_time in a child interpreter)", "memory = tracemalloc"],
         "stubbed": [],
     }
     ASSUMPTIONS = ["budget constants were fixed from measurements on the unchanged tree (worst valid load: < 6 steps/byte + 8k, < 120 B/byte + 1.5 MiB)"]
